@@ -18,7 +18,7 @@ from sr import symreal
 
 from . import replays
 
-LEVELS = {"A": ["p", "q"], "B": ["r", "s", "t"], "D": ["u", "v"], "E": ["w"]}
+LEVELS = {"A": ["p", "q"], "B": ["r", "s", "t"], "D": ["u", "v"], "E": ["w"], "Z": [0, 1, 2]}  # Z: integer labels, the reference level is the FALSY label 0
 REPL = 3
 EPS = Fraction(1, 10**8)
 
@@ -32,6 +32,7 @@ def design(point: int):
         "B": pandas.Categorical([r[1] for r in rows], categories=LEVELS["B"]),
         "D": pandas.Categorical([r[2] for r in rows], categories=LEVELS["D"]),
         "E": pandas.Categorical(["w"] * n, categories=LEVELS["E"]),  # "all level counts >= 1": a factor with a single level
+        "Z": pandas.Categorical([(i * 5 + i // 3) % 3 for i in range(n)], categories=LEVELS["Z"]),
         "a": numpy.array(num),
     })
 
@@ -220,11 +221,18 @@ def run(check: Check) -> None:
             if any("E" in t.split(":") for t in fam):
                 cases.append((fam, True, False, None))
                 cases.append((fam, False, thorough and rng.random() < 0.5, None))
+    # a factor whose level LABELS are integers starting at 0 (the reference level's label is falsy): families over {Z, A, a}
+    ts = [":".join(c) for r in range(1, 4) for c in itertools.combinations(["Z", "A", "a"], r)]
+    zfams = [(t,) for t in ts] + list(itertools.permutations(ts, 2))
+    for fam in zfams:
+        if any("Z" in t.split(":") for t in fam):
+            cases.append((fam, True, False, None))
+            cases.append((fam, False, False, None))
     contrasts = ["sum", "helmert", "diff", "poly", "treatment"] if thorough else ["sum", "helmert"]
     two = [(t,) for t in terms] + list(itertools.permutations(terms, 2))
     for ct in contrasts:
         for fam in (two if thorough else rng.sample(two, 40)):
-            if any(f in LEVELS and f != "E" for t in fam for f in t.split(":")):
+            if any(f in LEVELS and f not in ("E", "Z") for t in fam for f in t.split(":")):
                 cases.append((fam, True, False, ct))
                 if thorough:
                     cases.append((fam, False, False, ct))
